@@ -1,0 +1,53 @@
+//go:build verif
+
+package protocol
+
+import (
+	"math"
+
+	"github.com/enfein/mieru/v3/pkg/appctl/appctlpb"
+	"github.com/enfein/mieru/v3/pkg/common"
+)
+
+// Exports for the external verification harness (property C01). Add-only; compiled only with -tags verif.
+
+const (
+	VerifC01MaxPDU                  = maxPDU
+	VerifC01LowEntropyChunkLen      = lowEntropyChunkLen
+	VerifC01StreamOverhead          = streamOverhead
+	VerifC01MaxUint16               = math.MaxUint16
+	VerifC01OpenSessionRequest      = int(openSessionRequest)
+	VerifC01OpenSessionResponse     = int(openSessionResponse)
+	VerifC01CloseSessionRequest     = int(closeSessionRequest)
+	VerifC01CloseSessionResponse    = int(closeSessionResponse)
+	VerifC01DataClientToServer      = int(dataClientToServer)
+	VerifC01DataServerToClient      = int(dataServerToClient)
+	VerifC01AckClientToServer       = int(ackClientToServer)
+	VerifC01AckServerToClient       = int(ackServerToClient)
+	VerifC01DataClientToServerLE    = int(dataClientToServerLowEntropy)
+	VerifC01DataServerToClientLE    = int(dataServerToClientLowEntropy)
+	VerifC01SegmentTreeCapacity     = segmentTreeCapacity
+)
+
+// VerifC01StreamFragmentSize exposes maxFragmentSize for the stream transport.
+func VerifC01StreamFragmentSize(mtu int, mode int32) (int, error) {
+	return maxFragmentSize(mtu, common.StreamTransport, appctlpb.LowEntropyMode(mode))
+}
+
+// VerifC01LESourceBytes exposes buildLowEntropyParams(mode).sourceBytesPerChunk (0 for an invalid mode).
+func VerifC01LESourceBytes(mode int32) int {
+	p, err := buildLowEntropyParams(appctlpb.LowEntropyMode(mode))
+	if err != nil {
+		return 0
+	}
+	return p.sourceBytesPerChunk
+}
+
+// VerifC01LEEncodedLen exposes lowEntropyEncodedPayloadLen (-1 on error).
+func VerifC01LEEncodedLen(n int, mode int32) int {
+	v, err := lowEntropyEncodedPayloadLen(n, appctlpb.LowEntropyMode(mode))
+	if err != nil {
+		return -1
+	}
+	return int(v)
+}
